@@ -390,6 +390,7 @@ func runFree(t *testing.T, c *vCase) (tr *vTrace) {
 	if c.Procs > 0 {
 		defer runtime.GOMAXPROCS(runtime.GOMAXPROCS(c.Procs))
 	}
+	baseGoroutines := runtime.NumGoroutine()
 	done := make(chan struct{})
 	go func() {
 		err := Run(w, c.Cfg.Root)
@@ -405,8 +406,11 @@ func runFree(t *testing.T, c *vCase) (tr *vTrace) {
 	if !hang {
 		// Run may return while other targets are still running (after a cycle is
 		// reported); wait until everything that started has ended.
+		// (a target that was started but whose goroutine has not run yet is not "open": the
+		// number of goroutines must be back to what it was before the build as well)
 		deadline := time.Now().Add(20 * time.Second)
-		for w.open.Load() != 0 && time.Now().Before(deadline) {
+		settled := func() bool { return w.open.Load() == 0 && runtime.NumGoroutine() <= baseGoroutines }
+		for !settled() && time.Now().Before(deadline) {
 			time.Sleep(200 * time.Microsecond)
 		}
 		if w.open.Load() != 0 {
